@@ -527,7 +527,9 @@ func (rt *RT) call(f *Fn, args []reflect.Value) []reflect.Value {
 				decoActive = true
 			}
 		}
-		if !decoActive {
+		if !decoActive || rt.decoIDs[f.ID] {
+			// (a decorator that re-enters on purpose: only execution
+			// counts are judged for such histories)
 			rt.Reentered++
 			nf := &Fn{ID: -f.ID, P: f.Reenter.P}
 			_ = rt.scopeOf(f.Reenter.S).Invoke(rt.Materialise(nf))
